@@ -90,10 +90,10 @@ def opCalDec (args : List SExp) : Option OpResult := do
       | .error .badRequest => "400"
       | .error .abstain => "?singular-element-twice"
     let judge : String → List (String × String) := fun got =>
-      match intended with
-      | some q => if got = s!"ok {kpQuery q}" then [] else [("C08", "server-alters-rfc-query")]
-      | none => if impl.startsWith "?" || got = impl then [] else
-          [("C08", "server-reads-query-differently")] ++ (if got.startsWith "5" then [("C13", "report-answered-5xx")] else [])
+      (if got.startsWith "5" || got = "panic" then [("C13", "report-answered-5xx")] else []) ++
+      (match intended with
+       | some q => if got = s!"ok {kpQuery q}" then [] else [("C08", "server-alters-rfc-query")]
+       | none => if impl.startsWith "?" || got = impl then [] else [("C08", "server-reads-query-differently")])
     pure ⟨impl, judge⟩
   | _ => none
 
